@@ -37,6 +37,10 @@ RECURSIVE SyncedLen(_, _, _)
 SyncedLen(items, k, bytes) ==
   IF k > Len(items) \/ items[k].size > bytes THEN k - 1 ELSE SyncedLen(items, k + 1, bytes - items[k].size)
 
+RECURSIVE TakeLast(_, _)
+TakeLast(ws, need) == IF need <= 0 \/ Len(ws) = 0 THEN << >>
+                      ELSE Append(TakeLast(SubSeq(ws, 1, Len(ws) - 1), need - ws[Len(ws)].size), ws[Len(ws)])
+
 ObsWal(p, prev, written, openId) ==
   LET head0   == NormItems(p.head)
       hasPart == p.open /\ p.buffered > 0 /\ Len(head0) > 0 /\ head0[Len(head0)].st = "torn"
@@ -46,8 +50,10 @@ ObsWal(p, prev, written, openId) ==
       onDisk  == UNION ({AnyIds(disk[k].items) : k \in 1..Len(disk)} \cup {AnyIds(head0)})
   IN [disk |-> disk, hs |-> SubSeq(head, 1, ns), hu |-> SubSeq(head, ns + 1, Len(head)),
       part |-> IF hasPart THEN head0[Len(head0)].size ELSE 0,
-      \* records leave the buffer in order: what is still buffered is newer than everything in the files
-      buf  |-> IF p.open THEN SelectSeq(written, LAMBDA r : r.id >= openId /\ \A y \in onDisk : r.id > y) ELSE << >>,
+      \* records leave the buffer in order: the newest ones, as many as account for the buffered bytes
+      buf  |-> IF p.open THEN TakeLast(SelectSeq(written, LAMBDA r : r.id >= openId /\ r.id \notin onDisk),
+                                       p.buffered + (IF hasPart THEN head0[Len(head0)].size ELSE 0))
+              ELSE << >>,
       gmin |-> IF p.open THEN p.gmin ELSE prev.gmin, gmax |-> IF p.open THEN p.gmax ELSE prev.gmax,
       open |-> p.open, extra |-> p.extra, cap |-> prev.cap, hlim |-> prev.hlim, tlim |-> prev.tlim]
 
